@@ -43,6 +43,21 @@ Proof. exact deleted_eq_reported. Qed.
 Theorem C23_failing_deletes_nothing : forall o r, (forall rm, r <> Ok rm) -> deleted o r = [].
 Proof. exact failing_deletes_nothing. Qed.
 
+(* a removal that fails ends the command with an error before the prune hand-off; prune gets the
+   removal set only after every reported snapshot file was deleted (or in a dry run) *)
+Theorem C23_prune_only_after_complete_removal : forall o fail r,
+  x_prune (execute o fail r) = true ->
+  exists rm, r = Ok rm /\ rm <> [] /\ x_kind (execute o fail r) = ROk /\
+             (o_dry o = true \/ (x_deleted (execute o fail r) = rm /\ forall i, In i rm -> memN i fail = false)).
+Proof. exact prune_only_after_complete_removal. Qed.
+
+Theorem C23_failed_removal_reported : forall o fail rm,
+  o_dry o = false -> (exists i, In i rm /\ memN i fail = true) ->
+  execute o fail (Ok rm) = mkX (diffN rm fail) RFailed false.
+Proof. exact failed_removal_reported. Qed.
+
+Print Assumptions C23_prune_only_after_complete_removal.
+Print Assumptions C23_failed_removal_reported.
 Print Assumptions C23_no_group_emptied.
 Print Assumptions C23_empty_policy_guard.
 Print Assumptions C23_outcomes.
